@@ -339,3 +339,4 @@ MANIFEST = {
             "'cpu' substring shortcut bypasses validate_device.",
     "technique": "CFG dominance (validate-before-store, must-pass-through) + protocol and role agreement on the AST",
 }
+MANIFEST["text"] += ' Also: the rollback path recorded by set._assign is built from the canonical key the value is stored under.'
